@@ -292,6 +292,10 @@ fn c16_check(_ctx: &Ctx, c: &C16Case) -> Report {
   match r.outcome.kind {
     Done | Quiescent => {}
     ref k => {
+      if let Some(p) = crate_panic(&r.outcome) {
+        rep.fail = fail(p);
+        return rep;
+      }
       rep.classes.push(format!("aborted:{:?}", k));
       return rep;
     }
